@@ -91,7 +91,7 @@ fn main() {
     let prop = Property {
         id: "C03",
         level: "fault_enumeration",
-        rule: "safety oracle at the writer boundary (Complete => bytes equal the sender's object; one terminal call) over: ALL permutations of the packets of small sessions (n<=8 quick, n<=10 thorough, FDT packet included), ALL sub-multisets with multiplicity <=2 of sessions with <=8 packets in three orders, seeded shuffles / bounded-displacement reorderings of larger multi-transfer and carousel sessions with stale packets, receive-once on and off, and payload faults (bit flips, truncation, extension, symbol swaps) on MD5-announced objects; a case is one chunk of histories of one shape, non-trivial when at least one writer was created; distinct = (shape, chunk)",
+        rule: "safety oracle at the writer boundary (Complete => bytes equal the sender's object; one terminal call) over: ALL permutations of the packets of small sessions (n<=8 quick, n<=10 thorough, FDT packet included), ALL sub-multisets with multiplicity <=2 of sessions with <=8 packets in three orders, seeded shuffles / bounded-displacement reorderings of larger multi-transfer and carousel sessions with stale packets, receive-once on and off, and payload faults (bit flips, truncation, extension, symbol swaps) on MD5-announced objects; a case is one chunk of histories of one shape, non-trivial when at least one writer was created; distinct = (shape, chunk); esi_above_16_bits: RaptorQ with 65 535 repair symbols per block, symbols with ESI >= 2^16 delivered first, then the last source symbols",
         assumptions: vec![
             "liveness is not demanded: a history may legitimately end without completion".into(),
             "payload faults are only generated for objects with Content-MD5 announced and MD5 checking enabled".into(),
